@@ -30,6 +30,7 @@ CLAIMED = {
  "C04": (LEVEL + "Unmarshal's shape, the Marshal reconstruction (parallel structural walk), deep equality of the second Unmarshal and two-way IsEqual are asserted on enumerated trees whose leaf ints/bools, root fold bit and first operator code are solver variables.", COMMON_NOTE),
  "C19": (LEVEL + "Every nil/non-nil pattern up to the length bound is enumerated; the scan limit is any int above the longest nil run and the index-option bits are symbolic. Defrag is genuinely broken for (nearly) every pattern that contains a nil and cannot be repaired without failing the repository's own test, so those patterns are listed as known findings; the check still reports a different failure of a listed pattern (panic, error, corrupted configuration) and any failure of an unlisted one.", COMMON_NOTE),
  "C20": (LEVEL + "Reveal is run on enumerated trees (single-child chains favoured) with the parenthetical bit of every Stack/Condition and all index-option bits as solver variables; leaf sequence, depth, survival of parenthetical/NOT nodes, equality of fully-unwrapped normal forms and lock release are asserted; self-deadlock is detected by the engine's lock table.", COMMON_NOTE),
+ "C05": (LEVEL + "Two trees are built independently from one description; every scalar leaf exists twice as a pair of 64-bit solver variables, so a comparison that ignores some position is refuted by the solver choosing equal values everywhere else; the verdict is asserted equivalent (both directions) to a reference comparison over the closed leaf-type universe.", COMMON_NOTE + "; reflect is modelled (engine/symx/reflectm.go) and every path is confirmed natively"),
 }
 _pending = "check not built yet in this round (solver-based harness planned, DESIGN.md §4); not a statement that the technique cannot apply"
 NA = {("C%02d" % i): _pending for i in range(1, 21) if ("C%02d" % i) not in CLAIMED}
